@@ -135,6 +135,17 @@ impl Model {
             }
         }
         
+        // Corner sampling is only valid when the divisor range excludes zero. An integer
+        // divisor has |y| >= 1 wherever the quotient exists, so |x / y| <= |x|.
+        if let (Val::ValI(y_lo), Val::ValI(y_hi)) = (y_min, y_max) {
+            if y_lo <= 0 && y_hi >= 0 {
+                let as_f64 = |v: Val| match v { Val::ValI(i) => i as f64, Val::ValF(f) => f };
+                let bound = as_f64(x_min).abs().max(as_f64(x_max).abs());
+                min = Val::ValF(-bound);
+                max = Val::ValF(bound);
+            }
+        }
+
         // If we couldn't calculate any valid division results, use conservative bounds
         if min == Val::ValF(f64::INFINITY) || max == Val::ValF(f64::NEG_INFINITY) {
             min = Val::ValF(-1000.0); // Very conservative
